@@ -819,17 +819,15 @@ Section Dom.
 
   Lemma consume_cap_noerr m cap nt g st k n : Forall obj_ok g -> consume_cap tau m cap nt g st k <> CErr n.
   Proof.
-    revert st k. induction g as [|t g IH]; intros st k F; cbn; [discriminate|]. inversion F; subst.
-    unfold cap_allows. destruct (str_eqb (tp t) tau) eqn:Et; cbn [negb].
-    - apply str_eqb_eq in Et. destruct (H1 Et) as [o ->].
-      destruct (dget (cc st) (nid o)) as [c0|]; [destruct (Nat.ltb c0 cap)|]; cbn iota;
-        try (apply IH; assumption);
-        (destruct (relevant tau m t); [|apply IH; assumption]);
-        (destruct nt as [nt'|]; [|apply IH; assumption]);
-        match goal with |- context [if ?b then CStop _ else _] => destruct b end;
-        try discriminate; apply IH; assumption.
-    - destruct (relevant tau m t) eqn:R; auto.
-      unfold relevant in R. rewrite Et in R. discriminate.
+    revert st k. induction g as [|t g IH]; intros st k F; cbn [consume_cap]; [discriminate|]. inversion F; subst.
+    destruct (relevant tau m t) eqn:R; [|apply IH; assumption].
+    unfold relevant in R. apply andb_true_iff in R. destruct R as [R _]. apply str_eqb_eq in R.
+    destruct (H1 R) as [o Eo]. unfold cap_allows. rewrite Eo, R, str_eqb_refl. cbn [negb].
+    destruct (dget (cc st) (nid o)) as [c0|]; [destruct (Nat.ltb c0 cap)|]; cbn iota;
+      try (apply IH; assumption);
+      (destruct nt as [nt'|]; [|apply IH; assumption]);
+      match goal with |- context [if ?b then CStop _ else _] => destruct b end;
+      try discriminate; apply IH; assumption.
   Qed.
 
   Lemma consumption_cases m cap g : Forall obj_ok g ->
@@ -924,8 +922,9 @@ Section Dom.
   Lemma consume_cap_nostop m cap g st k n : consume_cap tau m cap None g st k <> CStop n.
   Proof.
     revert st k. induction g as [|t g IH]; intros st k; cbn [consume_cap]; [discriminate|].
+    destruct (relevant tau m t); auto.
     destruct (cap_allows tau cap st t) as [[|]|]; try discriminate; auto.
-    destruct (relevant tau m t); auto. destruct (to t); auto. discriminate.
+    destruct (to t); auto. discriminate.
   Qed.
 
   Lemma consumption_all_nostop cap g n : consumption tau TAll cap g <> CStop n.
